@@ -176,7 +176,8 @@ impl Drop for FifoFeeder {
 const ROOT: &str = "run";
 // (two files carry the root's own base name in other directories)
 // (and a directory whose name looks like a drive letter)
-const PATHS: [&str; 11] = ["run/main.ds", "run/a/x.ds", "run/a/b/y.ds", "run/lib z/w.ds", "run/a/b/c/deep.ds", "run/q.ds", "run/a/n\u{e9}.ds", "run/a/main.ds", "run/lib z/main.ds", "run/m:/util.ds", "run/a/c:/t.ds"];
+// (and two files in a directory whose name has multi-byte characters, next to a directory named by its first character)
+const PATHS: [&str; 14] = ["run/main.ds", "run/a/x.ds", "run/a/b/y.ds", "run/lib z/w.ds", "run/a/b/c/deep.ds", "run/q.ds", "run/a/n\u{e9}.ds", "run/a/main.ds", "run/lib z/main.ds", "run/m:/util.ds", "run/a/c:/t.ds", "run/\u{65e5}\u{672c}/u.ds", "run/\u{65e5}\u{672c}/v.ds", "run/\u{65e5}/v.ds"];
 
 fn abs_base(env: &WorkerEnv) -> PathBuf {
     if env.chrooted { PathBuf::from("/") } else { env.jail_root.clone() }
